@@ -189,6 +189,11 @@ def run(cx):
             if cl[0] == 'closure':
                 cb = cx.closure_body(cl[1])
                 okc = cb is not None and len(cb.calls(f'{IC}::reverse_in_place')) == 1
+        # the for_each is presented as the `for` loop it stands for (vpa/mirinline.desugar_for_each): one reverse_in_place per element of the slice
+        for s in b.calls(f'{IC}::reverse_in_place'):
+            a0 = cx.arg(s, 0)
+            if a0[0] == 'itervar' and find('(param stations)', a0) is not None and any(s.bb in blocks for (_h, blocks, _bk) in b.loops()):
+                okc = len(b.calls(f'{IC}::reverse_in_place')) == 1
         cx.ob('COMUT', 'reverse_inscribed_circles', rv and okc, 'reverses the order of the stations AND each station in place', where=b.file)
     b = cx.fn(f'{IC}::reversed')
     if b:
